@@ -55,6 +55,60 @@ CHECKS['C14'] = dict(
     technique='contract-based deductive verification: ast->z3 VC generation with segmented strings (symbolic numerals) and z3 string variables; bounded enumeration stand-in for one clause',
     note=COMMON_NOTE + " float(text) is modelled by uninterpreted isfloat/floatval on symbolic text; numerals contain no blank, '/' or ':'.")
 
+
+CONTAINER_TECH = ('contract-based deductive verification: ast->z3 VC generation on the real Container code; contents are '
+                  'maps of arbitrary size (arrays + quantified loop invariant), sums as canonical weighted sums; '
+                  'refutation by finite instantiation of the same AST, counter-models replayed on the real package')
+CONTAINER_NOTE = COMMON_NOTE + (" Sums over a contents dict are the weighted finite sums WS_k (T2); the Sigma-algebra "
+                                "facts used (linearity, point update, monotonicity, non-negativity) are instances of "
+                                "lemmas stated in lemmas/Sigma.lean. Unit.convert_from is used through its contract "
+                                "(the spec function verified by C06).")
+CHECKS['C01'] = dict(category='proof', design_ref='DESIGN.md §7 C01', technique=CONTAINER_TECH, note=CONTAINER_NOTE + (
+    " Covered in this check: the container-to-container core (Container._transfer) for contents of arbitrary size. "
+    "The plate/slice pairings (Container._transfer_slice, PlateSlicer._transfer) are NOT yet part of this check."),
+    text=("Container._transfer is executed symbolically for every unit family (L with all prefixes; g, mol, U), "
+          "request class (negative, zero from empty, in range, more than held) and capacity kind, with source and "
+          "destination contents as maps of arbitrary size: the per-substance move loop is cut by a quantified "
+          "invariant (init/step discharged), and at every return `for all s: src'[s] + dst'[s] = src[s] + dst[s]` "
+          "and the key-set clause are discharged. Unbounded in the number of substances and in all numeric inputs."))
+CHECKS['C02'] = dict(category='proof', design_ref='DESIGN.md §7 C02', technique=CONTAINER_TECH, note=CONTAINER_NOTE + (
+    " Drift of the 10-digit internal rounding over long chains is outside A2 and not claimed. The n-well dispense "
+    "lemma over plate pairings is not yet part of this check."),
+    text=("At every normal return of Container._transfer with a request q in range: every substance of the source is "
+          "reduced by the same fraction r = q/measure_u(source) and exactly that aliquot is added to the destination "
+          "(`uniform`), and the moved size measured in the unit of q (total volume, total mass, non-enzyme moles, "
+          "enzyme activity) equals q on both sides (`size`); a zero request on an empty source moves nothing. "
+          "Discharged for contents of arbitrary size, all numeric inputs, every unit family."))
+CHECKS['C03'] = dict(category='proof', design_ref='DESIGN.md §7 C03', technique=CONTAINER_TECH, note=CONTAINER_NOTE + (
+    " The exact-capacity boundary under IEEE doubles is invisible to a real-arithmetic proof (A1/A2). "
+    "create_solution / create_solution_from / dilute / recipe steps are not yet part of this check. Container.__init__ "
+    "is proved per list length 0..2 (bounded in the number of initial entries)."),
+    text=("For Container.__init__, _add/_self_add, _transfer, remove, fill_to: every returned container has "
+          "non-negative amounts and volume and volume <= capacity (`nonneg`, `cap`); a returning call implies the "
+          "request was feasible (`refuse`: negative quantity, more than the source holds in the unit of the request, "
+          "capacity exceeded, fill target below the current quantity); a ValueError implies it was infeasible "
+          "(`accept`), and no other exception is possible (`safe[...]`: division by zero, KeyError, ...). All as "
+          "obligations over contents of arbitrary size."))
+CHECKS['C10'] = dict(category='proof', design_ref='DESIGN.md §7 C10', technique=CONTAINER_TECH, note=CONTAINER_NOTE + (
+    " Plate observers (get_volumes/get_moles/get_volume/get_substances of Plate and PlateSlicer) are not yet part of "
+    "this check; dataframe/_repr_html_ (pandas) are out of reach."),
+    text=("Representation invariant `cached volume = sum of the volumes of the contents` as a postcondition of "
+          "Container.__init__, _add, _transfer (both results), remove, fill_to and as precondition where the cached "
+          "volume is read; observers: get_volume(u) and get_concentration(solute, units) for 24 unit spellings x 3 "
+          "solute kinds equal their definition computed from the contents."))
+CHECKS['C11'] = dict(category='proof', design_ref='DESIGN.md §7 C11', technique=CONTAINER_TECH, note=CONTAINER_NOTE + (
+    " Container.dilute is not yet part of this check (fill_to and the _add it relies on are)."),
+    text=("Container.fill_to for solid and liquid solvents, fill units L/g/mol with several prefixes, relation of the "
+          "target to the current quantity (above / equal / below / non-positive) and capacity kind: the result's "
+          "total in the fill unit equals the target, only the solvent increased, capacity respected, targets below "
+          "the current quantity refused, reachable targets accepted. Contents of arbitrary size incl. enzymes."))
+CHECKS['C17'] = dict(category='proof', design_ref='DESIGN.md §7 C17', technique=CONTAINER_TECH, note=CONTAINER_NOTE + (
+    " Plate/slice remove and the recipe's trash accounting are not yet part of this check."),
+    text=("Container.remove(what) for what = a substance or one of the three classes: no selected substance remains, "
+          "every other substance keeps membership and amount (the dict comprehension is modelled as a pointwise "
+          "filter, quantified over all substances), the reported volume is the sum of the remaining volumes, name and "
+          "capacity are carried over."))
+
 NOT_YET = "check not built yet in this round (under construction; not claimed)"
 NOT_APPLICABLE = {}
 
